@@ -22,9 +22,16 @@ WRAPPED = ['silk_Decode', 'silk_decode_indices', 'silk_decode_pulses', 'silk_ste
 WRAP = ['-Wl,' + ','.join('--wrap=' + s for s in WRAPPED)]
 
 REQUIRED_THEOREMS = ['OpusProps.C03.' + t for t in (
-    'silkSyms_total', 'silkSyms_indices_in_range', 'silkSyms_tables_wellformed', 'silkSyms_lsb_loop_exits',
-    'silkSyms_pulses_fit_int16', 'silkSyms_symbols_history_free')]
+    'silkSyms_total', 'silkSyms_indices_in_range', 'silkSyms_decode_indices_in_range', 'silkSyms_tables_wellformed',
+    'silkSyms_tables_frozen_eq_repo', 'silkSyms_lsb_loop_exits', 'silkSyms_pulses_fit_int16')]
 UNPROVED = [
+    'silkSyms_symbols_history_free: the symbols read for a frame do not depend on the SILK decoder state left by earlier '
+    'frames/packets (ec_prevSignalType / ec_prevLagIndex are only read under CODE_CONDITIONALLY, i.e. after a frame of the same '
+    'packet wrote them; prev_decode_only_middle only steers reads behind a frame of the same packet). The model is evaluated from '
+    'the zero state for every packet while the harness decodes on running decoders (streams with losses, FEC, mode/channel '
+    'switches), so a dependence on history would show as a disagreement; it is not proved. As a consequence the packet-level '
+    'bound lagIndex in [-16, 277] is not proved either (silkSyms_indices_in_range gives the per-call bound: absolute range or '
+    '-8..+11 around the previous lag index)',
     'silkSyms_lockstep (design priority P1): the decoder model reads back exactly the symbols the mirrored encoder calls of '
     'silk_encode_indices / silk_encode_pulses wrote — a corollary of C08 (range coder) that is out of this property\'s scope; '
     'on the implementation it is searched (encoder final range == decoder final range), not proved',
@@ -69,8 +76,8 @@ def ties(ctx):
     h = _harness(ctx, 'san')
     q = ctx.quick
     s = str(ctx.seed)
-    out = [common.run_tie('silksyms-rand', [h, 'rand', s, '12000' if q else '250000']),
-           common.run_tie('silksyms-real', [h, 'real', s, '70' if q else '1500'])]
+    out = [common.run_tie('silksyms-rand', [h, 'rand', s, '40000' if q else '600000']),
+           common.run_tie('silksyms-real', [h, 'real', s, '200' if q else '4000'])]
     return out
 
 
@@ -115,15 +122,15 @@ def _build_opus_compare():
     return exe
 
 
-def corpus_check(ctx, h):
+def corpus_check(ctx, h, collect=False):
     """Decode the committed packets with the tree under test at every output rate / channel count and compare with the
     committed reference PCM (produced once by the unchanged tree at 48 kHz) using the repo's own opus_compare."""
-    res = {'streams': 0, 'comparisons': 0, 'min_q': None, 'exact_48k': 0, 'fails': [], 'notes': []}
+    res = {'streams': 0, 'comparisons': 0, 'min_q': None, 'exact_48k': 0, 'fails': [], 'notes': [], 'all_q': {}}
     idx = os.path.join(CORPUS, 'streams.txt')
     if not os.path.exists(idx):
         res['notes'].append('no corpus committed')
         return res
-    calib = json.load(open(CALIB)) if os.path.exists(CALIB) else {}
+    calib = {k: v for k, v in (json.load(open(CALIB)) if os.path.exists(CALIB) else {}).items() if isinstance(v, dict)}
     cmp_exe = _build_opus_compare()
     work = os.path.join(common.scratch(), 'c03corpus')
     os.makedirs(work, exist_ok=True)
@@ -161,6 +168,9 @@ def corpus_check(ctx, h):
                 m = re.search(r'quality metric: ([-\d.]+) %', out)
                 q = float(m.group(1)) if m else None
                 res['comparisons'] += 1
+                if collect:
+                    res['all_q'][key] = q if rc == 0 else None
+                    continue
                 if rate == 48000 and ch == 2 and open(outp, 'rb').read() == ref:
                     res['exact_48k'] += 1
                 if rc != 0 or q is None:
@@ -194,7 +204,7 @@ def search(ctx):
     """S4 on the implementation only: (1) decoder final range == encoder final range on real encoder streams over modes,
     bandwidths, durations, stereo, transitions, repacketised + padded packets; (2) self-reference PCM corpus vs opus_compare."""
     h = _harness(ctx, 'plain')
-    n = 150 if ctx.quick else 4000
+    n = 400 if ctx.quick else 10000
     rc, out = common.sh([h, 'search', str(ctx.seed), str(n)], timeout=3000)
     wit, cases, info = [], 0, ''
     for line in out.split('\n'):
@@ -221,7 +231,7 @@ def search(ctx):
                       'streams (SILK/hybrid/CELT, all bandwidths and durations, stereo, FEC, DTX, transitions) and for repacketised, '
                       'padded multi-frame packets (last frame); self-reference PCM corpus (regression oracle, NOT the RFC vectors): %d '
                       'streams decoded at 5 rates x 2 channel counts compared with src/opus_compare.c at the RFC threshold' % cor['streams'],
-            'final_range': info, 'corpus': {k: v for k, v in cor.items() if k != 'fails'},
+            'final_range': info, 'corpus': {k: v for k, v in cor.items() if k not in ('fails', 'all_q')},
             'samples': ['search %d %d -> %d packets, %d violations; %s' % (ctx.seed, n, cases, len(wit), info),
                         'corpus: %d streams, %d comparisons, min quality %s %%, %d bit-exact at 48 kHz stereo'
                         % (cor['streams'], cor['comparisons'], cor['min_q'], cor['exact_48k'])],
